@@ -32,6 +32,8 @@ def check(ctx, report):
     report.rule('C05.R2', 'literal zone designator only after normalisation to UTC')
     report.rule('C05.R3', 'SCSV fold (parse) and unfold (compose) are inverse')
     absent_stays_absent(ctx, report)
+    from .c18 import name_value_composers
+    name_value_composers(ctx, report, rule='C05.R5')
     import json, os
     here = os.path.dirname(os.path.dirname(os.path.abspath(__file__)))
     with open(os.path.join(here, 'reviewed.json')) as fh:
